@@ -564,6 +564,8 @@ struct World
       sb = std::make_unique<sim::StreamBuf<Ch>>(full, chunk);
       if (trunc >= 0)
         sb->visible(static_cast<std::size_t>(trunc));
+      // half of the runs: a stream buffer without put-back support (seekable all the same)
+      sb->putback(plan.cfg.get("pback", 1) != 0);
       is = std::make_unique<std::basic_istream<Ch>>(sb.get());
     }
     else if (backend == 1)
@@ -631,6 +633,8 @@ void generate(sim::Rng &rng, sim::Plan &p, bool thorough)
   p.cfg.set("backend", static_cast<long>(backend));
   static unsigned const chunks[] = {0, 1, 2, 3, 7, 1, 2};
   p.cfg.set("chunk", static_cast<long>(chunks[rng.below(7)]));
+  if (backend == 0 && rng.chance(1, 2))
+    p.cfg.set("pback", 0);
   unsigned const len = static_cast<unsigned>(rng.below(thorough ? 40 : 25));
   unsigned const nl_weight = static_cast<unsigned>(rng.range(1, 5));
   std::string text;
